@@ -223,6 +223,62 @@ def r_anchor(P, chk):
                                   "outside the `== scratch->%s->size` first-use test" % stack if not governed else
                                   ("without the id on first use" if first_escape else "with the id on re-use"), fam))
     chk.floor(rid, n_calls, 3, "note call anchor sites")
+    # a note that was registered as used gets its call anchor: between `<note>_from_bracket(.., &n)` (which pushes the note on the
+    # used stack the first time) and the function's exit, every path prints a call anchor of the family - except the malformed
+    # branch (n == -1).  An exit in between makes that silent registration the "first use": the real call is then printed as a
+    # re-use without id and the list entry's back-link dangles.
+    n_reg = 0
+    for fam, reg in (("fn", "footnote_from_bracket"), ("gn", "glossary_from_bracket")):
+        for f in P.all_funcs:
+            if not P.first_party(f) or f.unit.base != "html.c":
+                continue
+            pos = f.cfg.positions()
+            regs = [c for c in f.calls(reg) if c.get("i") in pos]
+            if not regs:
+                continue
+            hrefs = [c for k2, f2, c, _, _ in sites.get(fam, []) if k2 == "href" and f2 is f and c.get("i") in pos
+                     and ('<a href="#%s:' % fam) in (_format_args(c)[0] or "")]
+            hb = {pos[c["i"]][0] for c in hrefs}
+            for r in regs:
+                n_reg += 1
+                outv = None
+                for a in r["c"][1:]:
+                    sa = strip(a)
+                    if sa is not None and sa["k"] == "UnaryOperator" and sa["op"] == "&":
+                        outv = key(sa["c"][0])
+
+                def wellformed(t_, outv=outv):
+                    t2 = strip(t_)
+                    if t2 is not None and t2["k"] == "BinaryOperator" and t2["op"] in ("==", "!=") and key(t2["c"][0]) == outv and \
+                            const_value(t2["c"][1]) == -1:
+                        return t2["op"] == "!="
+                    return None
+                edges = set()
+                edpe_blocks(f, "?none", 0, extra_decide=wellformed, edges_out=edges)
+                succ = {}
+                for x, y in edges:
+                    succ.setdefault(x, []).append(y)
+                b0 = pos[r["i"]][0]
+                seen, st, escape = set(), [b0], False
+                while st:
+                    x = st.pop()
+                    if x in seen:
+                        continue
+                    seen.add(x)
+                    if x in hb:
+                        continue
+                    if x == f.cfg.exit:
+                        escape = True
+                        break
+                    st.extend(succ.get(x, ()))
+                chk.obligation(rid, "%s %s: after %s every path prints the %s call anchor (malformed case aside)" % (f.where(r), f.name, reg, fam),
+                               bool(hrefs) and not escape)
+                if not hrefs or escape:
+                    chk.violation(rid, "anchor:registered:%s" % fam, f.where(r),
+                                  "%s can leave after %s has registered the note as used without printing its call anchor: a later, real "
+                                  "call of the same note is then printed as a re-use (no id=\"%sref:N\") and the list entry links back "
+                                  "to nothing" % (f.name, reg, fam))
+    chk.floor(rid, n_reg, 2, "note registrations followed by a call anchor")
     r_listbound(P, chk, rid)
     # heading labels
     n_lab = 0
